@@ -39,6 +39,7 @@ FRESH_METHODS = {'copy', 'subgraph', 'keys', 'values', 'items', 'split', 'format
 
 # networkx facts: these calls return a *view*; a view has its own instance attributes but shares the attribute dictionary
 # `.graph` with the graph it was taken from, and the property `Graph.name` is stored in that dictionary
+ELEMENT_ACCESSORS = {'get', 'setdefault', 'pop', 'popitem', '__getitem__'}
 VIEW_METHODS = {'subgraph', 'edge_subgraph', 'reverse_view', 'subgraph_view', 'restricted_view'}
 
 
@@ -87,6 +88,48 @@ class Ownership:
         self.ctx = ctx
         self.p: Program = ctx.p
         self._pif: Dict[int, Dict[str, str]] = {}
+        self._taints: Optional[Dict[str, List[Tuple[str, str]]]] = None
+        self._computing_taints = False
+
+    # ------------------------------------------------------------------ containers that hold shared objects
+    def container_taints(self) -> Dict[str, List[Tuple[str, str]]]:
+        """'self.<field>' of a per-run class -> the shared objects some method of the class stores in it as an element
+        (`self.f[k] = shared`, `self.f.setdefault(k, shared)`, `.append(shared)` ...): an element read back from such a
+        container may be that shared object, although the container itself belongs to the run."""
+        if self._taints is not None:
+            return self._taints
+        if self._computing_taints:
+            return {}
+        self._computing_taints = True
+        taints: Dict[str, List[Tuple[str, str]]] = {}
+        try:
+            for ci in self._per_run_classes():
+                for m in ci.methods.values():
+                    if isinstance(m.node, ast.Lambda):
+                        continue
+                    g = self.ctx.graph(m.fid, depth=1)
+                    for ev in g.evs:
+                        if ev.inst is not g.root_inst:
+                            continue
+                        cont = val = None
+                        if ev.kind == 'store' and ev.info.get('how') == 'item':
+                            cont, val = ev.info['target'].value, ev.info.get('value')
+                        elif ev.kind == 'call' and isinstance(ev.node, ast.Call) and isinstance(ev.node.func, ast.Attribute) \
+                                and ev.node.func.attr in ('setdefault', 'append', 'add', 'insert', 'appendleft') and ev.node.args:
+                            cont, val = ev.node.func.value, ev.node.args[-1]
+                        if cont is None or val is None:
+                            continue
+                        ct = sym.term(self.p, cont, ev.inst)
+                        if not (isinstance(ct, tuple) and ct and ct[0] == 'attr' and isinstance(ct[1], tuple) and ct[1][:1] == ('param',)):
+                            continue
+                        shared = [(c, r) for c, r in self.classify(g, ev, val) if c.startswith('shared')]
+                        if shared:
+                            taints.setdefault(f'{ct[1][1]}.{ct[2]}', []).extend(
+                                (c, f'{r} (kept in {ct[1][1]}.{ct[2]} by {m.qualname})') for c, r in shared)
+        finally:
+            self._computing_taints = False
+        self._taints = taints
+        return taints
 
     def pif(self, ci: ClassInfo) -> Dict[str, str]:
         if id(ci) not in self._pif:
@@ -182,12 +225,16 @@ class Ownership:
                     return self._classify_term(g, ev, t[2][0], obj, inst, depth + 1)
                 if ext in FRESH_CALLS or last in FRESH_METHODS:
                     return [('fresh', shown)]
-                # accessor of a container: the receiver decides (d.get(k), G.nodes[..].get(..))
+                # accessor of a container: the receiver decides (d.get(k), G.nodes[..].get(..)); what it hands out is an element
                 if t[2]:
+                    if last in ELEMENT_ACCESSORS:
+                        return self._classify_term(g, ev, ('elem', t[2][0]), obj, inst, depth + 1)
                     return self._classify_term(g, ev, t[2][0], obj, inst, depth + 1)
                 return [('unknown', shown)]
             if name.startswith('?'):
                 if t[2]:
+                    if name.lstrip('?').split('.')[-1] in ELEMENT_ACCESSORS:
+                        return self._classify_term(g, ev, ('elem', t[2][0]), obj, inst, depth + 1)
                     return self._classify_term(g, ev, t[2][0], obj, inst, depth + 1)
                 return [('unknown', shown)]
             unit = self.p.functions.get(name)
@@ -291,9 +338,13 @@ class Ownership:
         per_run = owner == 'per-run'
         if not path:
             return [('per-run' if per_run else 'shared:self', shown)]
+        tainted: List[Tuple[str, str]] = []
         for i, seg in enumerate(path):
             if seg == '[]':
-                # element of a per-instance container: owned by the instance
+                # element of a per-instance container: owned by the instance - unless a shared object was put there
+                held = self.container_taints().get(pname + ''.join('.' + x for x in path[:i] if x != '[]'))
+                if held:
+                    tainted.extend(held)
                 continue
             if cur_cls is None:
                 break
@@ -318,7 +369,7 @@ class Ownership:
                     continue
                 return [(f'shared:{seg}', shown)]
             return [('shared:self', shown)]
-        return [('per-run', shown)]
+        return tainted + [('per-run', shown)]
 
     def _init_param_field(self, ci: ClassInfo, name: str) -> bool:
         """self.<name> = <parameter> in __init__: the object comes from the caller."""
@@ -340,6 +391,21 @@ class Ownership:
                             if isinstance(v, ast.IfExp) and isinstance(v.body, ast.Name) and v.body.id in params:
                                 return True
         return False
+
+    def _per_run_classes(self) -> List[ClassInfo]:
+        mgr = self.ctx.manager_class()
+        out = [mgr]
+        work = [mgr]
+        while work:
+            c = work.pop()
+            for name in self.pif(c):
+                f = self.p.lookup_field(c, name)
+                if f is not None and f[1] is not None:
+                    ft = self.p.ann_to_type(f[1], f[0].module)
+                    if ft[0] == 'class' and ft[1] not in out:
+                        out.append(ft[1])
+                        work.append(ft[1])
+        return out
 
     def _owner_kind(self, ci: ClassInfo) -> str:
         """per-run if instances of the class are created per run (manager, its storage, locks, context)."""
